@@ -792,9 +792,9 @@ func TestC19(t *testing.T) {
 	if stat.ReplayPath() == "" {
 		selfTest(t)
 	}
-	q, th := 1500, 40000
+	q, th := 3000, 40000
 	if raceEnabled {
-		q, th = 500, 6000
+		q, th = 800, 6000
 	}
 	stat.Check(t, st, "pool", stat.N(q, th), draw, run)
 	key := "slowest_passing_case_ms(norace)"
